@@ -255,7 +255,7 @@ def run_grid(case):
                         add_child(kind, obj, i)
                 raised = None
             except Exception as exc:
-                raised = type(exc).__name__
+                raised = env.exc_label(exc)
                 obj = None
         else:
             obj = make(kind, count)
@@ -270,14 +270,14 @@ def run_grid(case):
                     getattr(obj, method)(setting[0], setting[1])
                 raised = None
             except Exception as exc:
-                raised = type(exc).__name__
+                raised = env.exc_label(exc)
         outcomes.append("%s:%s" % (exp[0], raised or "stored"))
         if raised is not None:
             nontrivial = 1
             if exp[0] == "must":
                 fails.append(F(case, "valid-setting-refused", count=count, observed=raised,
                                expected=repr(exp[1]), explain="%r refused with %s" % (setting, raised)))
-            elif raised != "ValueError":
+            elif not env.is_a(raised, "ValueError"):
                 fails.append(F(case, "refused-with-wrong-exception", count=count, observed=raised,
                                expected="ValueError"))
             if obj is not None:
